@@ -5,7 +5,7 @@ import Driver.ClusterStream
 /-
 stream life (C04, C05, C01, C07 — H-sys, real goroutines)
   in   plan=<o|b string per sender>/... spare=<n> inbox=<n> end=<poison|stop>
-  impl done|HANG|… sbr=<0|1> log=R<inc>:<I|S|X|m<s>.<j><<sender>>,...
+  impl done|HANG|… sbr=<0|1> succ=<ok|OVERLAP|LOST(n-of-80)|DISORDER|none> ovl=<0|1> log=R<inc>:<I|S|X|m<s>.<j><<sender>>,...
 The interleaving of the senders is up to the Go scheduler: the model column is the canonical content
 (sorted multiset of deliveries, number of incarnations); the ACTUAL log is judged by the acceptors
 `lifecycleOK` (C04), per-sender order / exactly once / sender fidelity (C01, C05), drain before done (C07).
@@ -66,7 +66,12 @@ def lifeCase (inp impl : String) : CaseOut :=
     let booms := (plan.map fun p => (p.toList.filter (· = 'b')).length).sum
     let incs := (evs.filterMap fun e => match e with | .recv inc .initialized _ _ => some inc | _ => none).length
     let lastIsX := match evs.getLast? with | some (.recv _ .stopped _ _) => true | _ => false
+    -- the successor spawned (with default options) by the final Stopped handler: 80 messages, one at a time, in order
+    let succ := (kv iw "succ").getD "none"
     let fails : List String :=
+      (if (kv iw "ovl") = some "1" then ["C02 two Receive calls of the actor (any incarnations) overlapped in time"] else []) ++
+      (if res = "done" && succ = "OVERLAP" then ["C02 two Receive calls of the actor spawned by the final Stopped handler overlapped in time"] else []) ++
+      (if res = "done" && succ ≠ "ok" && succ ≠ "OVERLAP" then [s!"C01+C03 the actor spawned by the final Stopped handler did not handle its 80 messages once each, in order: {succ}"] else []) ++
       (if res ≠ "done" then [s!"C07 stop/poison context: {res}"] else []) ++
       (if sbr ≠ "1" then ["C04 Spawn returned before Started had been handled"] else []) ++
       (if !lifecycleOK withProducers then ["C04 life-cycle shape violated in the actor's own log"] else []) ++
